@@ -97,6 +97,22 @@ CAUSE = {
  'C18-N': 'after an invalid document nothing else was done: the next call must be stored as slot 2',
  'C20-M': 'values of the histories were plain words: values with header-looking lines (one of them equal to the stale id) added',
  'C20-N': 'stale items lived in addressed files or in wholly stale files: an unaddressed file holding one entry of a test that called Skip and one stale entry added',
+ # round 8 (half round: ten properties)
+ 'C02-O': 'pairs with an invisible character on one side had another invisible character (or nothing) on the other: the same text with the character spelled out (Go/JSON escapes, caret, percent, entity notation) added — C13 caught the change at first run through its report oracle',
+ 'C02-P': 'a history, not a pair: the process looks the slot up, the file is then replaced from outside by one of the same size and modification time: file mode `file-swapped` added',
+ 'C03-O': 'values had one terminator line, or two separated by text: runs of two and three `---` lines followed by the header of another slot added (C03 shadow family, and C01 bodies of 3..5 lines over {---, a, [TestA - 2]})',
+ 'C03-P': 'pre-existing files had LF line ends: a CR LF file with twenty-odd lines in front of a slot that is updated by a value of the same length (and a shorter, a longer one) added',
+ 'C05-O': 'Clean cells made their preparatory calls without options: the same cells with Update(true) / Update(false) on those calls added (the option governs its call, never Clean)',
+ 'C05-P': 'the snapshot directory always existed: cells whose (nested) directory does not exist added — a call that may not create leaves no directory and makes no mutating file-system call',
+ 'C07-O': 'matched values were never empty: the empty value, a single empty line and a blank added (multi-entry and standalone)',
+ 'C09-O': 'stale ids were ids the library could have written: `X - 0`, `TestA - 02`, `TestA/old - 00` and an occurrence that overflows int added; the model now compares ids as text',
+ 'C12-O': 'every JSON option set an indent: JSON(JSONConfig{SortKeys: true}) (zero-value Indent) added to the sequence and pair cases',
+ 'C12-P': 'option VALUES were shared for JSON only: one Filename option value ("api.snap.json") shared by Configs built with and without Ext(".json"), in both argument orders, added',
+ 'C14-O': 'documents had no per cent sign: "50%", "%s items", "100%% %d%v" and a key `a%b` added',
+ 'C16-P': 'masked paths named one place: `items.#.id` over lists whose first / middle / last element lacks the key added (C16 pairs, C15 kinds wildany / wildcustom)',
+ 'C17-O': 'missing paths were plain keys: Custom("nolist.#.id") and Any("b.#.id") (b a string) added as one atom',
+ 'C17-P': 'wrong-type atoms mixed scalars with scalars or composites: Type[[]any] on a mapping and Type[map[string]any] on a list added (JSON and YAML)',
+ 'C20-O': 'stale entries were at the end of small files: three stale entries in FRONT of the file followed by 9 KB of lines added (the summary must still name them)',
  # round 6
  'C01-K': 'the multi-entry drivers had test names with `#`, `/`, digits but none with `%`: TestA/50%_off, TestA/%d_%s (and `[x]`, `a:b*?`) added to C01',
  'C03-K': 'all pre-existing files were well formed: a file whose last entry lost its terminator is looked up first, then the intact slots of other tests must still replay',
@@ -118,7 +134,7 @@ CAUSE = {
  'C19-K': 'update pairs had no pair where the new value is a line-prefix of the old one: a\\nb → a, a\\n → a, a\\nb\\n\\nc → a\\nb added',
  'C19-J': 'test names had `%`, `#`, `/` but none of `: * ? " < > |`: two such names, and pairs of tests whose names differ only there, added',
 }
-letters = {1:'AB',2:'CD',3:'EF',4:'GH',5:'IJ',6:'KL',7:'MN'}[rnd]
+letters = {1:'AB',2:'CD',3:'EF',4:'GH',5:'IJ',6:'KL',7:'MN',8:'OP'}[rnd]
 rows=[]; own=anyc=valid=0
 for d in sorted(glob.glob('/verif/seeded/C??-['+letters+']')):
     m=json.load(open(d+'/meta.json'))
